@@ -47,7 +47,7 @@ PROPS = {
         not_covered='parse_decimal_exactly/parse_rational_exactly, int(str(n)), hex/base64/utf8/gzip/json codecs, chr/ord, repr',
     ),
     'C14': dict(
-        units=['index', 'nint', 'nnum', 'nnumcmp', 'builtins', 'istype', 'rangeu', 'streamdef', 'seqlib', 'radix', 'keys', 'objctors'],
+        units=['index', 'accessors', 'nint', 'nnum', 'nnumcmp', 'builtins', 'istype', 'rangeu', 'streamdef', 'seqlib', 'radix', 'keys', 'objctors'],
         not_covered='every function not under contract (the other ~340 builtins, evaluate, assign_all, set_index, streams other than '
                     'Range/WrappedVec, the parser); try/catch containment and "interpreter still usable" are whole-program claims',
     ),
@@ -70,8 +70,8 @@ PROPS = {
                     '(each iteration consumes a character of a finite text; not proved because the lexer state is opaque)',
     ),
     'C10': dict(
-        units=['index', 'streamdef', 'rangeu', 'objctors'], kani='thorough',
-        not_covered='set_index, the take/drop/... builtins that call these kernels, Stream::pythonic_slice, overrides of the stream methods other than Cycle\'s',
+        units=['index', 'accessors', 'streamdef', 'rangeu', 'objctors'], kani='thorough',
+        not_covered='set_index, pop/remove/|.., uncons/unsnoc (Rc::make_mut, String::remove, HashMap), First/Last::run (few()), the predicate forms of take/drop, Stream::pythonic_slice, overrides of the stream methods other than Cycle\'s',
     ),
 }
 
